@@ -78,6 +78,11 @@ func (k *KVStore) isTableExpired(recycledAt int64) bool {
 
 func (k *KVStore) isCompactionOK(t *table.Table) bool {
 	s := t.Stats()
+	if s.Inuse == 0 && s.Garbage > 0 {
+		// Every entry of this table has been superseded or deleted. A table is sealed as soon as
+		// an entry doesn't fit in: it may be far from full and never reach the garbage ratio.
+		return true
+	}
 	return float64(s.Garbage) >= float64(s.Allocated)*maxGarbageRatio
 }
 
